@@ -19,7 +19,7 @@ EXPLANATION = (
     "partitioner, NUMA hints, the shared low-priority queue.")
 ASSUMPTIONS = ["thread_pool_base::create_work is implemented by scheduled_thread_pool only", "hints are honoured by the queue selection decided in C01.R7/C19.R4"]
 THOROUGH_CONFIGS = [["-UNDEBUG", "-DPIKA_DEBUG"]]
-FLOORS = {"C10.R1": 2, "C10.R2": 5, "C10.R3": 4, "C10.R4": 8, "C10.R5": 8, "C10.R6": 4, "C10.R7": 1, "C10.R8": 4}
+FLOORS = {"C10.R1": 2, "C10.R2": 5, "C10.R3": 4, "C10.R4": 8, "C10.R5": 8, "C10.R6": 4, "C10.R7": 1, "C10.R8": 4, "C10.R9": 4}
 
 SETV = "pika::execution::experimental::set_value"
 SETE = "pika::execution::experimental::set_error"
@@ -58,6 +58,9 @@ def run(rep, tier):
     rep.rule("C10.R3", "K6: schedule_from completes downstream with values only from scheduler_sender_receiver::set_value")
     rep.rule("C10.R4", "K7/K6: static policies mask stealing; cross-queue access only under enable_stealing")
     rep.rule("C10.R6", "K6 (who may advertise a completion scheduler): a sender adaptor forwards its predecessor's environment unchanged only if its receiver completes downstream inside the predecessor's completion; an adaptor whose completion members start another operation (let_value, let_error: the operation returned by the user's callable; schedule_from: the scheduler's) completes wherever that operation completes and must not advertise the predecessor's completion scheduler (bulk's pool customisation trusts it)")
+    rep.rule("C10.R9", "K7 (evaluated with a concrete hint): in create_thread / schedule_thread / schedule_thread_last of the queue schedulers a hint of mode 'thread' "
+             "for a worker number below the number of queues is what select_active_pu is asked for (the round-robin counter and the modulo apply only to an absent "
+             "or out-of-range hint) - otherwise a hinted task of a static pool is queued on another worker")
     rep.rule("C10.R8", "K8/K6 (wake-ups keep the worker): every call in the threading layer that makes an existing task pending again - "
              "set_thread_state(id, pending, .., hint, ..) in thread_helpers.cpp / set_thread_state.cpp / execution_agent.cpp and the final "
              "scheduler->schedule_thread(thrd, hint) - passes the hint it was given or one built from the worker recorded in that task "
@@ -448,6 +451,9 @@ def run(rep, tier):
     # (at_timer throws before a timer is armed).
     resume_hint_rules(rep)
 
+    # ---- R9: a worker hint reaches the queue selection unchanged (evaluated)
+    hint_reaches_selection(rep)
+
     # ---- R7: under a static policy every worker owns a high-priority queue.  The priority schedulers re-queue a task
     # that yields with boosted priority (yield_k / pending_boost - normal-priority tasks included) on high-priority queue
     # (worker % number of high-priority queues) and only the first that many workers poll one: with fewer queues than
@@ -575,3 +581,70 @@ def resume_hint_rules(rep):
                             % (what, f.qname, T(hint)))
     if n < 3:
         raise AnalysisBroken("C10.R8: wake-up sites not found (%d)" % n)
+
+
+def hint_reaches_selection(rep):
+    from engine.kinds import interp, eval_tree, Unknown
+    SP_ = facts(rep, lib("thread_pools", "src/scheduled_thread_pool.cpp"),
+                [r"::(local_priority_queue_scheduler|local_queue_scheduler)::(create_thread|schedule_thread|schedule_thread_last)$"])
+    en = SP_.enums.get("pika::execution::thread_schedule_hint_mode") or {}
+    if "thread" not in en:
+        raise AnalysisBroken("enum thread_schedule_hint_mode not found")
+    n = 0
+    seen = set()
+    for f in SP_.fns:
+        if f.pattern or f.parent != -1:
+            continue
+        key = (f.qname,)
+        if key in seen:
+            continue
+        seen.add(key)
+        pre = None
+        for p_ in f.params:
+            t_ = str(p_.get("type", ""))
+            if "thread_schedule_hint" in t_:
+                pre = p_["name"]
+            elif "thread_init_data" in t_:
+                pre = p_["name"] + ".schedulehint"
+        if pre is None:
+            continue
+        sel = lambda e: e.get("k") == "call" and callee_short(e) == "select_active_pu"
+        if not any(sel(e) for _, _, e in f.all_events()):
+            continue
+        env = {pre + ".mode": en["thread"], pre + ".hint": 3, "this->num_queues_": 8, "this->curr_queue_": 5, "this->num_high_priority_queues_": 8,
+               "this->queues_.size()": 8, "this->high_priority_queues_.size()": 8}
+        res = interp(f, env, until=sel)
+        stops = [(e_, ev) for end, e_, evs, ev in res if end == "stop"]
+        if not stops:
+            raise AnalysisBroken("%s: select_active_pu not reached in the evaluation" % f.qname)
+        n += 1
+        wrong = None
+        for e_, ev in stops:
+            a = ev["args"][1] if len(ev.get("args") or []) > 1 else None
+            try:
+                v = eval_tree(a, e_) if a is not None else None
+            except Unknown:
+                v = "?"
+            if v != 3:
+                wrong = (T(a) if a is not None else "?", v)
+        # a hint just past the last queue is folded into range (it indexes the queue array)
+        env8 = dict(env)
+        env8[pre + ".hint"] = 8
+        for end, e_, evs, ev in interp(f, env8, until=sel):
+            if end != "stop":
+                continue
+            a = ev["args"][1] if len(ev.get("args") or []) > 1 else None
+            try:
+                v = eval_tree(a, e_) if a is not None else None
+            except Unknown:
+                v = None
+            if isinstance(v, int) and not (0 <= v < 8):
+                rep.bad("C10.R9", f, f.loc, "hint-out-of-range:" + f.qname.rsplit("::", 1)[-1], "%s passes the out-of-range hint %d (8 queues) on to the queue selection unreduced: "
+                        "the queue array is indexed past its end" % (f.qname, v))
+        if wrong:
+            rep.bad("C10.R9", f, f.loc, "hint-not-used:" + f.qname.rsplit("::", 1)[-1], "%s, given the hint 'worker 3' (mode thread) on a scheduler with 8 queues, asks select_active_pu for %s = %s: "
+                    "the task is queued on another worker although its hint names a valid one (a static pool never moves it back)" % (f.qname, wrong[0], wrong[1]))
+        else:
+            rep.ok("C10.R9", f, "a valid worker hint is what select_active_pu is asked for")
+    if n < 4:
+        raise AnalysisBroken("C10.R9 evaluated only %d scheduler entry points" % n)
